@@ -182,7 +182,7 @@ def compare_snaps(a, b, allow_path_delta=None):
     pa = sorted(a.path)
     pb = sorted(b.path)
     if allow_path_delta:
-        added, removed = allow_path_delta
+        added, removed = allow_path_delta[0], allow_path_delta[1]
         for x in added:
             pa.append(x)
         for x in removed:
@@ -193,7 +193,9 @@ def compare_snaps(a, b, allow_path_delta=None):
         extra = [LOG.norm(x) for x in pb if x not in pa or pb.count(x) > pa.count(x)]
         missing = [LOG.norm(x) for x in pa if x not in pb or pa.count(x) > pb.count(x)]
         bad.append(('R2', 'sys.path entries changed: extra=%s missing=%s' % (sorted(set(extra)), sorted(set(missing)))))
-    if filters_repr(a.filters) != filters_repr(b.filters):
+    if allow_path_delta and len(allow_path_delta) > 2 and allow_path_delta[2]:
+        pass        # the imported module's own body installed a filter: its doing, not the importer's
+    elif filters_repr(a.filters) != filters_repr(b.filters):
         bad.append(('R3', 'warnings.filters changed: %d -> %d entries' % (len(a.filters), len(b.filters))))
     if b.running is not a.running:
         bad.append(('R4', 'running event loop changed: %r -> %r' % (a.running is not None, b.running is not None)))
